@@ -149,6 +149,30 @@ theorem documented_roles_deadlock_free {sys : List (Nat × List Action)} (wr : W
   have tf := tryFree_of_table (List.all_eq_true.1 table_try_free) wr
   exact ⟨no_deadlock_of_order bal ord hb rs, fun st => no_deadlock_of_order bal ord hb rs (stuck_is_deadlock bal tf rs st)⟩
 
+/-- **A role never locks a mutex it already holds**, for all programs and schedules: in every reachable
+state of every such system, a thread whose next action is `lock m` does not hold `m` (pthread mutexes
+are not recursive: it would block on itself for ever, and with it every thread that needs `m`).
+This is what `table_well_bracketed` buys (the held-set annotation rejects an edge `lock m` out of a
+node that holds `m`); seed C20-e (`store_lop` calling `vbi_chsw_reset` inside its `chswcd_mutex`
+section) makes exactly that theorem false. -/
+theorem documented_roles_never_relock {sys : List (Nat × List Action)} (wr : WellRoled roles sys)
+    {s : State} (rs : Reachable (progsOf sys) s) {i : Nat} {h : List Mutex} {m : Mutex} {r : List Action}
+    (hi : s[i]? = some ⟨h, .lock m :: r⟩) : m ∉ h := by
+  obtain ⟨h', htr⟩ := next_tracks (inv_reachable rs) (balanced_of_table roles_annOK wr) hi
+  exact track_lock_not_mem htr
+
+/-- the statement is not vacuous: a thread that does lock a mutex it holds is stuck for ever -/
+example : ∃ s, Reachable [[.lock 2, .lock 2, .unlock 2, .unlock 2]] s ∧ Deadlock s := by
+  refine ⟨[⟨[2], [.lock 2, .unlock 2, .unlock 2]⟩], ⟨[(0, .lock 2)], .cons ?_ (.nil _)⟩, ?_⟩
+  · exact Step.mk (s := init [[.lock 2, .lock 2, .unlock 2, .unlock 2]]) (i := 0) (h := [])
+      (a := .lock 2) (r := [.lock 2, .unlock 2, .unlock 2]) (h' := [2]) rfl
+      (by intro t ht; simp [init] at ht; subst ht; simp) rfl
+  · refine ⟨⟨_, List.mem_singleton.2 rfl, by simp⟩, ?_⟩
+    intro t ht
+    rw [List.mem_singleton] at ht
+    subst ht
+    exact Or.inr ⟨2, [.unlock 2, .unlock 2], rfl, _, List.mem_singleton.2 rfl, by simp⟩
+
 /-- **Caption fetch sees a snapshot.**  While a thread holds `cc.mutex` (it is inside
 `vbi_fetch_cc_page`, or inside `vbi_decode_caption` between two callbacks, or inside the caption
 reset), no other thread reads or writes `vbi->cc.channel[*]` (pages, hidden flag, cursor ...). -/
